@@ -5,6 +5,9 @@ from .common import *  # noqa
 import runner as R
 
 KEYS = {"outputs", "derived", "flow_rates", "comp_rates"}
+# observations whose model value is the property's specified value (a disagreement there is a failing input);
+# on the others the correspondence supports the tie and the oracle searches for the failing input
+SPEC_KEYS = set()
 
 
 def parameterise_sites(p, rng, prob=0.6):
